@@ -3,10 +3,13 @@
 package wm
 
 import (
+	"fmt"
+	"os"
 	"strings"
 
 	"verifsim/internal/core"
 	"verifsim/internal/findings"
+	"verifsim/internal/isa"
 	"verifsim/internal/mach"
 )
 
@@ -190,7 +193,52 @@ func matchTrigger(prop string, kf *findings.Set, c *core.Case, class string, v *
 			}
 		}
 		if t.match(c, f, class, v) {
+			if os.Getenv("VERIF_DEBUG_KF") != "" {
+				if fh, err := os.OpenFile(os.Getenv("VERIF_DEBUG_KF"), os.O_APPEND|os.O_CREATE|os.O_WRONLY, 0o644); err == nil {
+					fmt.Fprintf(fh, "KF %s explains class %s cfg %s verdict %+v slow=%+v shadow=%+v\nPROG %s\n", t.id, class, c.Cfg, v, f.tSlowWaw, f.tShadow, strings.ReplaceAll(c.Prog.Text(), "\n", "; "))
+					fh.Close()
+				}
+			}
 			return t.id
+		}
+	}
+	// Several defects in one run: each open finding whose conditions hold may
+	// explain a part of the mismatches. The union is tried with a verdict
+	// restricted to one register / one line at a time: every single mismatch
+	// must be explained by some finding.
+	if f != nil && v != nil && isMismatch(class) && !v.BadMany {
+		var used []string
+		explainedBy := func(one *core.Verdict) bool {
+			for i := range triggers {
+				t := &triggers[i]
+				listed := false
+				for _, p := range t.props {
+					if p == prop {
+						listed = true
+					}
+				}
+				if !listed || !kf.IsOpen(prop, t.id) {
+					continue
+				}
+				if t.match(c, f, class, one) {
+					used = append(used, t.id)
+					return true
+				}
+			}
+			return false
+		}
+		for _, r := range v.BadRegs {
+			if !explainedBy(&core.Verdict{Class: v.Class, BadRegs: []isa.Reg{r}}) {
+				return ""
+			}
+		}
+		for _, l := range v.BadLines {
+			if !explainedBy(&core.Verdict{Class: v.Class, BadLines: []int32{l}}) {
+				return ""
+			}
+		}
+		if len(used) > 0 {
+			return used[0]
 		}
 	}
 	return ""
